@@ -353,7 +353,9 @@ func (self *Compiler) compileExpr(node ast.AnalyzedExpression) {
 
 			self.insert(newOneStringInstruction(opCodeSet, name), node.Range)
 		} else {
+			self.asPlace = true
 			self.compileExpr(node.Lhs)
+			self.asPlace = false
 
 			if node.Operator != pAst.StdAssignOperatorKind {
 				self.insert(newPrimitiveInstruction(Opcode_Duplicate), node.Range)
@@ -370,11 +372,18 @@ func (self *Compiler) compileExpr(node ast.AnalyzedExpression) {
 		self.compileCallExpr(node)
 	case ast.IndexExpressionKind:
 		node := node.(ast.AnalyzedIndexExpression)
+		asPlace := self.asPlace
+		self.asPlace = false
 		self.compileExpr(node.Base)
 		self.compileExpr(node.Index)
 		self.insert(newPrimitiveInstruction(Opcode_Index), node.Range)
+		if !asPlace {
+			self.insert(newPrimitiveInstruction(Opcode_Detach), node.Range)
+		}
 	case ast.MemberExpressionKind:
 		node := node.(ast.AnalyzedMemberExpression)
+		asPlace := self.asPlace
+		self.asPlace = false
 		self.compileExpr(node.Base)
 
 		opcode := Opcode_Nop
@@ -393,6 +402,9 @@ func (self *Compiler) compileExpr(node ast.AnalyzedExpression) {
 		self.insert(newOneStringInstruction(opcode, node.Member.Ident()), node.Range)
 		if additionalInst != nil {
 			self.insert(additionalInst, node.Range)
+		}
+		if !asPlace {
+			self.insert(newPrimitiveInstruction(Opcode_Detach), node.Range)
 		}
 
 	case ast.CastExpressionKind:
